@@ -28,7 +28,8 @@ func (p pairT) Term() []byte  { return []byte(p.t) }
 
 func runC18(c *explore.Ctx) {
 	fields := []string{"_id", "a", "b", "nosuch", ""}
-	terms := []string{"x", "um0", "m0", "zz"}
+	// "ax" under the field "" and "x" under the field "a" have the same concatenation field+term
+	terms := []string{"x", "um0", "m0", "zz", "ax"}
 	var pairs []pairT
 	for _, f := range fields {
 		for _, t := range terms {
@@ -175,6 +176,12 @@ func c18Extra(c *explore.Ctx) {
 			huge[j] = append(gen.Doc{gen.IDField("h", j)}, huge[j]...)
 		}
 		cases = append(cases, cs{"HUGE66000", huge, []pairT{{"a", "x"}, {"a", "y"}, {"_id", "h65536"}, {"_id", "h65535"}, {"a", "nosuch"}}, 2})
+		// the same with the term in EVERY document: its postings bitmap consists of run containers
+		dense := gen.Large(66000, 0, 1)
+		for _, j := range []int{0, 65535, 65536, 65999} {
+			dense[j] = append(gen.Doc{gen.IDField("h", j)}, dense[j]...)
+		}
+		cases = append(cases, cs{"HUGE66000-dense", dense, []pairT{{"a", "x"}, {"a", "y"}, {"_id", "h65536"}, {"a", "nosuch"}}, 2})
 	}
 	for _, cse := range cases {
 		ls := model.Build(cse.batch)
